@@ -405,6 +405,67 @@ func instrBeforeOrDom(a, b ssa.Instruction) bool {
 	return reach(a.Block())
 }
 
+// rulePlannedPeerIdentity: steps that change the role of an *existing* peer
+// (promote, demote) address it by its peer id; a target given by store and role
+// only carries id 0. Whatever is recorded in toPromote/toDemote is either the
+// target peer whose id was found equal to the origin's, or a peer built with the
+// origin's id.
+func rulePlannedPeerIdentity(c *Ctx) {
+	P := c.P
+	rule := c.Prop + "/prepare"
+	pb := P.Method(opk, "Builder", "prepareBuild")
+	peerID := P.Field("github.com/pingcap/kvproto/pkg/metapb", "Peer", "Id")
+	getID := F(P.Method("github.com/pingcap/kvproto/pkg/metapb", "Peer", "GetId"))
+	set := F(P.Method(opk, "peersMap", "Set"))
+	same := guardRel("target id == origin id", "==", resultOfCall(getID), resultOfCall(getID))
+	adopted := &calledEv{name: "target rebuilt with the origin's peer id", match: func(x ssa.Instruction) bool {
+		st, ok := x.(*ssa.Store)
+		return ok && fieldOfAddr(st.Addr) == peerID && valueIsCallTo(st.Val, getID)
+	}, reset: func(x ssa.Instruction) bool {
+		// a new origin peer: the loop over originPeers starts its next iteration
+		n, ok := x.(*ssa.Next)
+		return ok && n != nil
+	}}
+	same.invalidate = func(x ssa.Instruction) bool { _, ok := x.(*ssa.Next); return ok }
+	n := 0
+	for _, fld := range []string{"toPromote", "toDemote"} {
+		f := P.Field(opk, "Builder", fld)
+		for _, ci := range callsIn(pb, false, set) {
+			recv := callRecv(ci.Common())
+			if recv == nil || !isLoadOf(recv, f) {
+				continue
+			}
+			n++
+			target := ci.(ssa.Instruction)
+			// the recorded value is the variable the adoption assigns: φ(target peer, peer rebuilt with the origin's id)
+			okVal := false
+			if a := callArgs(ci.Common()); len(a) == 1 {
+				if phi, isPhi := a[0].(*ssa.Phi); isPhi {
+					for _, e := range phi.Edges {
+						if al, isAlloc := e.(*ssa.Alloc); isAlloc {
+							for _, r := range *al.Referrers() {
+								if fa, ok := r.(*ssa.FieldAddr); ok && fieldOfAddr(fa) == peerID {
+									for _, rr := range *fa.Referrers() {
+										if st, ok := rr.(*ssa.Store); ok && valueIsCallTo(st.Val, getID) {
+											okVal = true
+										}
+									}
+								}
+							}
+						}
+					}
+				}
+			}
+			c.Check(okVal, rule, fmt.Sprintf("value of %s.Set in %s", fld, fnName(pb)), "the peer recorded is the one the id adoption produced", P.instrPos(ci), "")
+			c.need(rule, pb, fmt.Sprintf("%s.Set in %s", fld, fnName(pb)), func(x ssa.Instruction) bool { return x == target },
+				[]Ev{same, adopted}, anyOf, "a role change of an existing peer is recorded with that peer's id (equal ids, or the target rebuilt with the origin's id)")
+		}
+	}
+	if n < 2 {
+		c.Undec(rule, "toPromote/toDemote.Set in "+fnName(pb), "at least 2", P.pos(pb.Pos()), fmt.Sprint(n))
+	}
+}
+
 func rulePrepareBuild(c *Ctx) {
 	P := c.P
 	rule := c.Prop + "/prepare"
@@ -544,7 +605,7 @@ func init() {
 		c.Group("C08/plan-priority", "one-at-a-time planning considers demote/remove only after replace and promote are exhausted", func() { rulePlanPriority(c) })
 		c.Group("C08/replace-plans", "a replace plan never adds on the store it removes from", func() { ruleReplacePlans(c) })
 		c.Group("C08/joint-ordering", "joint consensus: enter/leave without inner transfer only when the leader of that moment stays a voter; enter → transfer → leave; removals last", func() { ruleJointOrdering(c) })
-		c.Group("C08/prepare", "requests without voters or with a disallowed leader are rejected; steps only from a validated request; an operator only after successful planning", func() { rulePrepareBuild(c) })
+		c.Group("C08/prepare", "requests without voters or with a disallowed leader are rejected; steps only from a validated request; an operator only after successful planning", func() { rulePrepareBuild(c); rulePlannedPeerIdentity(c) })
 		c.Group("C08/step-safety", "every step kind has a precondition check (leader protection) and a send case", func() { ruleStepSafety(c); ruleStepSwitchExhaustive(c) })
 		c.Group("C08/id-kind", "(shared with C09) store ids and peer ids are not mixed in the planner", func() { ruleIDKinds(c, "server/schedule/operator", "server/schedule") })
 	})
